@@ -142,6 +142,8 @@ struct Case {
     img: Img,
     img2: Img,
     tag: String,
+    /// predecessor symbol (context): the statement is not restricted to freshly constructed drivers
+    pred: Option<usize>,
 }
 
 fn prefix_for(spec: &Spec, e: &FullEntry) -> Vec<Op> {
@@ -152,15 +154,48 @@ fn prefix_for(spec: &Spec, e: &FullEntry) -> Vec<Op> {
 }
 
 /// run one full-frame entry point with the given image(s) and check clauses 1-3
+/// a failure seen after a predecessor is reported (with an `after:` tag) only when the same call
+/// on a fresh driver does not fail the same way
 fn check_frame(c: &Case, variant: &str, rep: &mut Report) {
+    let mut tmp = Report::new();
+    check_frame_one(c, variant, &mut tmp);
+    if c.pred.is_some() && !tmp.failures.is_empty() {
+        let mut fresh = Report::new();
+        let mut fc = c.clone();
+        fc.pred = None;
+        check_frame_one(&fc, variant, &mut fresh);
+        let fresh_sigs: Vec<String> = fresh.failures.iter().map(|f| f.sig()).collect();
+        let strip = |f: &Failure| {
+            let mut g = f.clone();
+            g.tags.retain(|t| !t.starts_with("after:"));
+            g.sig()
+        };
+        let keep: Vec<Failure> = tmp.failures.iter().filter(|f| !fresh_sigs.contains(&strip(f))).cloned().collect();
+        tmp.failures.clear();
+        tmp.fail_counts.clear();
+        for f in keep {
+            tmp.fail(f);
+        }
+    }
+    rep.merge(tmp);
+}
+
+fn check_frame_one(c: &Case, variant: &str, rep: &mut Report) {
     let spec = c.spec;
     let e = &c.entry;
     rep.eval(spec.name);
     let mut rig = Rig::simple(spec);
-    let pre = prefix_for(spec, e);
+    let mut pre: Vec<Op> = Vec::new();
+    let mut ctx_tag: Option<String> = None;
+    if let Some(pi) = c.pred {
+        let syms = syms(spec);
+        pre.extend(syms[pi].iter().cloned());
+        ctx_tag = Some(format!("after:{}", sym_kinds(&syms, &[pi])));
+    }
+    pre.extend(prefix_for(spec, e));
     for p in &pre {
         if !rig.apply(p).is_ok() {
-            rep.inconclusive("protocol prefix did not return Ok");
+            rep.count("contexts_with_failing_predecessor", 1);
             return;
         }
     }
@@ -170,7 +205,12 @@ fn check_frame(c: &Case, variant: &str, rep: &mut Report) {
     let mut ops = pre.clone();
     ops.push(op.clone());
     let case = case_json(spec, variant, &ops).set("content", c.tag.as_str());
-    let mk = |class: &str, tags: Vec<String>, detail: String| Failure { panel: spec.name.into(), entry: e.k.name().into(), class: class.into(), tags, detail, case: case.clone() };
+    let mk = |class: &str, mut tags: Vec<String>, detail: String| {
+        if let Some(t) = &ctx_tag {
+            tags.push(t.clone());
+        }
+        Failure { panel: spec.name.into(), entry: e.k.name().into(), class: class.into(), tags, detail, case: case.clone() }
+    };
     if !o.is_ok() {
         rep.fail(mk("panic", vec![], format!("call returned {}", o.short())));
         return;
@@ -238,7 +278,7 @@ fn check_frame(c: &Case, variant: &str, rep: &mut Report) {
             rep.fail(mk("write-outside-panel", vec![kind.into()], format!("controller model recorded {} x {} during the call", n, kind)));
         }
     }
-    rep.nontrivial(hash_str(&format!("{}|{}|{}", spec.name, e.k.name(), c.tag)));
+    rep.nontrivial(hash_str(&format!("{}|{}|{}|{:?}", spec.name, e.k.name(), c.tag, c.pred)));
     rep.state(hash_bytes(&chip.planes[e.plane].data) ^ hash_str(spec.name));
     if rep.samples.len() < 6 {
         rep.sample(case.clone().set("wire_payload_len", last.len()).set("refreshes", chip.refreshes.len()));
@@ -492,7 +532,21 @@ pub fn run(ctx: &Ctx) -> Report {
             }
             for (img, tag) in imgs {
                 let img2 = if len2 > 0 { Img::Coded { salt: 0xBEEF ^ hash_str(&tag) as u32, len: len2 } } else { Img::None };
-                cases.push(Case { spec, entry: *e, img, img2, tag });
+                cases.push(Case { spec, entry: *e, img, img2, tag, pred: None });
+            }
+            // contexts: the same entry point after every symbol of the alphabet (one coded image; more in thorough)
+            let syms = syms(spec);
+            let nimg = if ctx.tier_thorough { 3 } else { 1 };
+            for pi in 0..syms.len() {
+                if spec.name == "epd2in13_v2" && e.k == K::SetPartialBase && syms[pi].iter().any(|o| o.k == K::SetRefresh) {
+                    continue;
+                }
+                for j in 0..nimg {
+                    let salt = 0x5EED + j as u32 * 977 + pi as u32;
+                    let img = Img::Coded { salt, len };
+                    let img2 = if len2 > 0 { Img::Coded { salt: salt ^ 0xBEEF, len: len2 } } else { Img::None };
+                    cases.push(Case { spec, entry: *e, img, img2, tag: format!("ctx{}:{}", pi, j), pred: Some(pi) });
+                }
             }
         }
     }
